@@ -523,6 +523,11 @@ def rule_r9(repo, run):
     run.rules[R]["obligations"] += n - len(found)
     run.rules[R]["discharged"] += n - len(found)
     run.floor(R, "`options = ...` bindings in per-declaration functions", n, 15)
+    found, n2 = lints.library_option_reads(repo, ("typemap", "generate", "wrapc", "wrapf", "wrapp", "wrapl", "ast", "whelpers"))
+    for mn, q, node, msg in found:
+        run.fail(R, "%s.%s:%s" % (mn, q, pyflow.dotted(node)), msg, repo.module(mn).loc(node))
+    run.rules[R]["obligations"] += n2
+    run.rules[R]["discharged"] += n2 - len(found)
     for mn, q, node, msg in lints.rebound_parameter_in_loop(repo, "ast", "add_declarations", "parent"):
         run.fail(R, "%s.%s:parent" % (mn, q), msg + " - options/format of a block leak onto the declarations after it",
                  repo.module(mn).loc(node))
